@@ -4,9 +4,13 @@ mod common;
 mod s_bigrat;
 mod s_biguint;
 mod s_date;
+mod s_serde;
 mod s_text;
 
 use std::io::{self, BufRead, Write};
+
+#[global_allocator]
+static ALLOC: s_serde::Counting2 = s_serde::Counting2;
 
 fn main() {
     let args: Vec<String> = std::env::args().collect();
@@ -23,6 +27,8 @@ fn main() {
         "intfn" => s_text::intfn_line,
         "evalseq" => s_text::evalseq_line,
         "strlit" => s_text::strlit_line,
+        "serde" => s_serde::serde_line,
+        "deser" => s_serde::deser_line,
         _ => {
             eprintln!("usage: fend-verif-harness <stream>");
             std::process::exit(2);
@@ -39,7 +45,7 @@ fn main() {
             let s = started.load(std::sync::atomic::Ordering::SeqCst);
             if s != 0 && now_ms().saturating_sub(s) > limit * 1000 {
                 // stdout is flushed after every line, so exactly the lines before this one are out
-                println!("err timeout");
+                println!("err timeout phase={}", common::PHASE.load(std::sync::atomic::Ordering::SeqCst));
                 std::process::exit(3);
             }
         });
